@@ -1300,15 +1300,21 @@ class BaseMatcher:
         """
         node_max = None
         node_max_ne = 0
+        # Iterate over the layers in insertion order (values_all() is a set of objects hashed on
+        # their label, its order changes between processes) and compare (obs_ne, logprob)
+        # lexicographically, otherwise the selected matching depends on the iteration order.
         if last_is_e:
-            for m in self.lattice[start_idx].values_all():  # type:BaseMatching
-                if not m.stop and (node_max is None or m.logprob > node_max.logprob):
-                    node_max = m
+            for layer in self.lattice[start_idx].o:
+                for m in layer.values():  # type:BaseMatching
+                    if not m.stop and (node_max is None or m.logprob > node_max.logprob):
+                        node_max = m
         else:
-            for m in self.lattice[start_idx].values_all():  # type:BaseMatching
-                if not m.stop and (node_max is None or m.obs_ne > node_max_ne or m.logprob > node_max.logprob):
-                    node_max_ne = m.obs_ne
-                    node_max = m
+            for layer in self.lattice[start_idx].o:
+                for m in layer.values():  # type:BaseMatching
+                    if not m.stop and (node_max is None or
+                                       (m.obs_ne, m.logprob) > (node_max_ne, node_max.logprob)):
+                        node_max_ne = m.obs_ne
+                        node_max = m
         if node_max is None:
             logger.error("Did not find a matching node for path point at index {}".format(start_idx))
             return None
